@@ -474,6 +474,68 @@ func genProgram(r *rand.Rand, nsnip int, exp *int) (code, data []byte) {
 	return g.a.Bytes(), data
 }
 
+// ------------------------------------------------------------------- matrix
+
+// matrixPrograms: every operation on the cross product of its boundary operands
+// (shift counts around 256, byte / extension indexes around 32, the signed and
+// unsigned extremes), 16 operations per program. full adds the wider operand
+// sets of the expensive operations (division, modular arithmetic).
+func matrixPrograms(full bool) [][]byte {
+	b := func(x int64) *big.Int { return big.NewInt(x) }
+	max := wrap(new(big.Int).Sub(two256, one))
+	p255 := pow2(255)
+	ext := []*big.Int{b(0), b(1), b(2), new(big.Int).Sub(p255, one), p255, wrap(new(big.Int).Add(p255, one)), wrap(new(big.Int).Sub(max, one)), max}
+	few := []*big.Int{b(0), b(1), b(3), p255, max}
+	type tri struct {
+		op   byte
+		a, b *big.Int
+	}
+	var ts []tri
+	cross := func(ops []byte, as, bs []*big.Int) {
+		for _, o := range ops {
+			for _, x := range as {
+				for _, y := range bs {
+					ts = append(ts, tri{o, x, y})
+				}
+			}
+		}
+	}
+	shifts := []*big.Int{b(0), b(1), b(7), b(8), b(254), b(255), b(256), b(257), pow2(64), max}
+	vals := []*big.Int{b(1), b(0x80), p255, wrap(new(big.Int).Add(p255, one)), max, new(big.Int).Sub(p255, one)}
+	cross([]byte{eu.SHL, eu.SHR, eu.SAR}, shifts, vals)
+	idx := []*big.Int{b(0), b(1), b(15), b(30), b(31), b(32), b(33), pow2(64), max}
+	pat, _ := new(big.Int).SetString("0102030405060708090a0b0c0d0e0f101112131415161718191a1b1c1d1e1f20", 16)
+	sgn, _ := new(big.Int).SetString("80ff7f80ff7f80ff7f80ff7f80ff7f80ff7f80ff7f80ff7f80ff7f80ff7f80ff", 16)
+	cross([]byte{eu.BYTE, eu.SIGNEXTEND}, idx, []*big.Int{pat, sgn, max, b(0x80), b(0x7f), b(0xff80), b(0x8000)})
+	cross([]byte{eu.LT, eu.GT, eu.SLT, eu.SGT, eu.EQ, eu.ADD, eu.SUB}, ext, ext)
+	cross([]byte{eu.AND, eu.OR, eu.XOR}, few, []*big.Int{pat, max, b(0)})
+	if full {
+		cross([]byte{eu.DIV, eu.SDIV, eu.MOD, eu.SMOD, eu.MUL}, ext, ext)
+		cross([]byte{eu.EXP}, []*big.Int{b(0), b(1), b(2), b(3), max, p255}, []*big.Int{b(0), b(1), b(2), b(255), b(256), b(257)})
+	} else {
+		cross([]byte{eu.DIV, eu.SDIV, eu.MOD, eu.SMOD, eu.MUL}, few, few)
+		cross([]byte{eu.EXP}, []*big.Int{b(0), b(2), max}, []*big.Int{b(0), b(1), b(255), b(256)})
+	}
+	var progs [][]byte
+	for i := 0; i < len(ts); i += 16 {
+		a := eu.NewAsm()
+		for _, t := range ts[i:min(i+16, len(ts))] {
+			a.Push(t.b.Bytes()).Push(t.a.Bytes()).Op(t.op, eu.POP)
+		}
+		progs = append(progs, a.Bytes())
+	}
+	// ternary operations: modulus 0, 1, 2, 2^255, max with operands whose sum / product exceeds 2^256
+	a := eu.NewAsm()
+	for _, o := range []byte{eu.ADDMOD, eu.MULMOD} {
+		for _, n := range []*big.Int{b(0), b(1), b(2), p255, max} {
+			for _, xy := range [][2]*big.Int{{max, max}, {p255, p255}, {max, b(1)}, {b(0), max}} {
+				a.Push(n.Bytes()).Push(xy[1].Bytes()).Push(xy[0].Bytes()).Op(o, eu.POP)
+			}
+		}
+	}
+	return append(progs, a.Bytes())
+}
+
 // ------------------------------------------------------------------ vectors
 
 var vecOps = map[string]int{"add": eu.ADD, "and": eu.AND, "byte": eu.BYTE, "div": eu.DIV, "eq": eu.EQ, "exp": eu.EXP,
@@ -606,6 +668,7 @@ func main() {
 	perFile := flag.Int("vecperfile", 0, "vectors per file (0 = all)")
 	shard := flag.Int("shard", 0, "vector shard")
 	shards := flag.Int("shards", 1, "vector shards")
+	matrix := flag.String("matrix", "", "boundary operand matrix: quick | full")
 	expBudget := flag.Int("exp", 2, "EXP instructions with a wide exponent in the whole trace")
 	h := flag.Uint64("height", 100, "block height (selects the jump table)")
 	flag.Parse()
@@ -620,6 +683,14 @@ func main() {
 	}
 	if *vectors != "" {
 		runVectors(*vectors, r, *perFile, *shard, *shards, *expBudget)
+	}
+	if *matrix != "" {
+		for i, code := range matrixPrograms(*matrix == "full") {
+			if i%*shards == *shard {
+				runProgram("matrix", code, nil)
+				stats["matrix_programs"]++
+			}
+		}
 	}
 	exp := *expBudget
 	for i := 0; i < *nprog; i++ {
@@ -637,8 +708,8 @@ func main() {
 		faults = append(faults, fmt.Sprintf("%s:%d", c, n))
 	}
 	sort.Strings(faults)
-	fmt.Printf("c10: programs=%d steps=%d events=%d vectors=%d tlc_programs=%d\n", stats["programs"], stats["steps"], tr.N,
-		stats["vectors"], stats["tlc_programs"])
+	fmt.Printf("c10: programs=%d steps=%d events=%d vectors=%d tlc_programs=%d matrix_programs=%d\n", stats["programs"], stats["steps"], tr.N,
+		stats["vectors"], stats["tlc_programs"], stats["matrix_programs"])
 	fmt.Printf("OPS %s\n", strings.Join(ops, " "))
 	fmt.Printf("FAULTS %s\n", strings.Join(faults, " "))
 }
